@@ -460,7 +460,25 @@ func RunConc(sc ConcScenario, base string, emit func(Ev)) error {
 		}
 	}
 	var parkedFile string
+	var updDone chan error
+	pollUpdate := func(d time.Duration) {
+		if updDone == nil {
+			return
+		}
+		select {
+		case err := <-updDone:
+			updDone = nil
+			step("update", Ev{"ok": err == nil})
+		case <-time.After(d):
+		}
+	}
 	for _, st := range sc.Steps {
+		if st.A != "update" {
+			pollUpdate(0)
+		}
+		if st.A == "findafter" {
+			pollUpdate(10 * time.Second)
+		}
 		switch st.A {
 		case "list":
 			if q != nil {
@@ -560,13 +578,16 @@ func RunConc(sc ConcScenario, base string, emit func(Ev)) error {
 			}
 			rec = nil
 			step("cunlink", nil)
+			pollUpdate(2 * time.Second)
 		case "update":
 			// a manual status update of the run that is being closed (the run's socket already reports a final status, so the
 			// API lets it through); the whole operation, not gated
 			upd := status(2)
 			upd.Params = "v9"
-			err := server.Update(dagFile, status(2).RequestID, upd)
-			step("update", Ev{"ok": err == nil})
+			updDone = make(chan error, 1)
+			go func() { updDone <- server.Update(dagFile, status(2).RequestID, upd) }()
+			// it may have to wait for the compaction (the lock of the fix of F-06h): it is recorded when it returns
+			pollUpdate(300 * time.Millisecond)
 		case "findafter":
 			sf, err := server.FindByRequestID(dagFile, status(2).RequestID)
 			ans := []int{}
